@@ -6,6 +6,7 @@ import sys
 from .. import engine as E
 from .. import gen as G
 from ..oracle import M, P10, MODES, in_i128, OP_INT_TYPES, INT_TYPES
+from .. import knuth as K
 from . import arith as A
 from . import common as C
 
@@ -23,7 +24,8 @@ BUILDS = {"quick": [("dev", ()), ("release", ())],
 ASSUMPTIONS = [C.GRID_NOTE]
 REQUIRED_SITES = {"divr.eq": 100, "divr.less.narrow": 100, "divr.less.wide": 100,
                   "shdm.neg_pos": 50, "shdm.exact_neg": 20, "shdm.none": 20, "round_quot.tie": 50,
-                  "round_quot.overflow": 2, "knuth": 100, "idiv64": 100}
+                  "round_quot.overflow": 2, "knuth": 100, "idiv64": 100,
+                  "knuth.q1.rhat_eq_b": 20, "knuth.q0.rhat_eq_b": 20}
 BUDGET = {"quick": 25, "thorough": 300}
 N_RANDOM = {"quick": 1500, "thorough": 5000}
 
@@ -190,6 +192,9 @@ def gen(rng, tier, shard, batch):
     for mode in MODES:
         reqs.append("mode " + mode)
         reqs += mine
+        # the rare corners of the multi-word division, constructed algebraically (vf/knuth.py)
+        reqs += K.api_corner_requests(rng, 4 if tier == "quick" else 10, G.fD)
+        reqs += K.hi_eq_divisor_requests(rng, 4 if tier == "quick" else 10, G.fD)
         if batch == 0:
             for a, p, b, q in C.small_grid(tier, shard, E.NCPU):
                 reqs.append("div vv %s %s" % (G.fD(a, p), G.fD(b, q)))
